@@ -421,6 +421,23 @@ def iter_beacon_config_blocks(
         yield from iter_beacon_config_blocks(fobj, left_xor_keys, xordecode=xordecode, all_xor_keys=False)
 
 
+class _ReadOnlyList(list):
+    """A list that rejects modification, for the values of the read-only settings mappings.
+
+    The mappings are cached, a caller that modifies a list it was handed would change the settings for everyone else.
+    It still is a `list` (compares equal to one, can be sliced, added, serialized), copies are ordinary lists.
+    """
+
+    def _read_only(self, *args, **kwargs):
+        raise TypeError("settings are read-only, make a copy with list() to modify")
+
+    __setitem__ = __delitem__ = __iadd__ = __imul__ = _read_only
+    append = extend = insert = pop = remove = clear = reverse = sort = _read_only
+
+    def __reduce__(self):
+        return (list, (list(self),))
+
+
 def make_byte_list(exclude: List[bytes] = None) -> List[bytes]:
     """Return all single-byte bytes as an ordered list, excluding `exclude` bytes."""
     return sorted({p8(x) for x in range(256)} - set(exclude or []))
@@ -935,6 +952,8 @@ class BeaconConfig:
                 pretty_func = SETTING_TO_PRETTYFUNC.get(setting.index)
                 if pretty_func:
                     val = pretty_func(val)
+                    if isinstance(val, list):
+                        val = _ReadOnlyList(val)
             settings[key] = val
         return MappingProxyType(settings)
 
